@@ -1030,10 +1030,9 @@ func runFamily(c *vh.Ctx, e *env, idx int) {
 		}
 		ok = exercise(step)
 	}
-	// a few modified tickets on random members, for the model
-	for k := 0; ok && k < 3; k++ {
-		i := r.Intn(len(cfgs))
-		t := mutateTicket(r, tickets)
+	// modified tickets for the model: every framing variant of a member's own newest ticket (which that member can
+	// open unmodified) — bytes in front (16/32/48 arbitrary, its own iv), bytes behind, the ticket twice — plus random ones
+	openFor := func(i int, t []byte) {
 		s, _ := cfgs[i].DecryptTicket(t, tls.ConnectionState{})
 		obs := "None"
 		if s != nil {
@@ -1043,6 +1042,21 @@ func runFamily(c *vh.Ctx, e *env, idx int) {
 		}
 		ops = append(ops, fmt.Sprintf("FOn %d (HOpen %s %s)", i, vh.Bytes(t), obs))
 		tickets = append(tickets, t)
+	}
+	if ok {
+		i := r.Intn(len(cfgs))
+		own := newest[i].t
+		junk := make([]byte, 48)
+		r.Read(junk)
+		for _, k := range []int{16, 32, 48} {
+			openFor(i, append(append([]byte{}, junk[:k]...), own...))
+		}
+		openFor(i, append(append([]byte{}, own[:16]...), own...))
+		openFor(i, append(append([]byte{}, own...), junk[:16+r.Intn(32)]...))
+		openFor(i, append(append([]byte{}, own...), own...))
+		for k := 0; k < 2; k++ {
+			openFor(r.Intn(len(cfgs)), mutateTicket(r, tickets))
+		}
 	}
 	tb := buildTables(cands, tickets)
 	term := fmt.Sprintf("CFam %s %s %s [] %s %d%%Z %s", vh.List(tb.sh), vh.List(tb.hm), vh.List(tb.ks),
